@@ -35,6 +35,10 @@ type RefRun struct {
 	// put a second real party, e.g. the real client, into the "ref" slot; its
 	// panics are recovered and reported in Panic).
 	RawRef func(ctx context.Context, end *kernel.End) error
+	// RefGivesUp: when nothing can move while the reference (hostile) peer is
+	// still waiting, it closes its connection (a peer that stalls forever is
+	// outside the guarantees); the real party must then finish.
+	RefGivesUp bool
 }
 
 type RefResult struct {
@@ -51,6 +55,7 @@ type RefResult struct {
 	Pending  string
 	HookErr  error
 	BytesToReal, BytesFromReal int64
+	RefGaveUp bool
 }
 
 // RunWithRef executes the run in a fresh bubble.
@@ -125,6 +130,11 @@ func RunWithRef(t *testing.T, rr *RefRun) (res *RefResult) {
 			}
 		}
 		res.Outcome = sim.Run()
+		if res.Outcome == kernel.Deadlock && rr.RefGivesUp && !refParty.Done() {
+			res.RefGaveUp = true
+			refEnd.Close()
+			res.Outcome = sim.Run()
+		}
 		res.Stats, res.Hash, res.Shape, res.Tape = sim.Stats, sim.Hash(), sim.Shape(), sim.Tape().Rec
 		res.HookErr = sim.HookErr
 		if res.Outcome != kernel.Finished {
